@@ -132,11 +132,11 @@ class Stub:
     def __init__(self, idx: int, out: str, log: list) -> None:
         self.idx, self.out, self.log = idx, out, log
         self.text = f"member{idx}:{out}:text"
-        self.ctx = AuthContext(domain=f"d{idx}", authenticated=True, principal=f"p{idx}", claims={"m": idx})
+        self.ctx = AuthContext(domain=f"d{idx}", authenticated=out != "anon", principal=f"p{idx}", claims={"m": idx})
 
     def __call__(self, req):
         self.log.append(self.idx)
-        if self.out == "ok":
+        if self.out in ("ok", "anon"):
             return self.ctx
         raise_for(self.out, self.text)
 
@@ -156,7 +156,7 @@ def run_chain(ms: list[str], order: tuple[int, ...], req) -> dict:
             who, same = str(cands[0].idx), got is cands[0].ctx
         else:
             who = "mixed"
-    ve_texts = [stubs[j].text for j in order if ms[j] not in ("ok", "pe", "rt", "down")]
+    ve_texts = [stubs[j].text for j in order if ms[j] not in ("ok", "anon", "pe", "rt", "down")]
     return {"k": r["k"], "reason": r["reason"], "exc": r["exc"], "who": who, "same": same, "called": list(log),
             "detail_all": all(t in r["text"] for t in ve_texts)}
 
